@@ -2,11 +2,12 @@
 """refcheck.py <ref dir> [...]: applies a behaviour-preserving refactoring to a scratch copy of /repo and runs the
 quick checks of the properties anchored in the touched files.  Reports which stay quiet."""
 import json, os, re, shutil, subprocess, sys
+ROOT = os.path.dirname(os.path.dirname(os.path.dirname(os.path.abspath(__file__))))
 
 MAP = [
-    (r"pipe/(pipe|function)\.go", ["C05", "C06", "C07", "C11", "C12", "C13"]),
-    (r"pipe/(unbound|queue)\.go", ["C08"]),
-    (r"pipe/fork/", ["C09", "C10"]),
+    (r"^pipe/(pipe|function)\.go", ["C05", "C06", "C07", "C11", "C12", "C13"]),
+    (r"^pipe/(unbound|queue)\.go", ["C08"]),
+    (r"^pipe/fork/", ["C09", "C10"]),
     (r"hseq/hseq\.go", ["C03", "C01", "C02"]),
     (r"optics/(lens|reflector)\.go", ["C01", "C02", "C04"]),
     (r"optics/(shape|iso)\.go", ["C04"]),
@@ -36,7 +37,7 @@ for ref in sys.argv[1:]:
             print(json.dumps({"ref": ref, "error": "patch does not apply"})); continue
         out = {}
         for p in props:
-            q = subprocess.run(["/verif/check", p], env=dict(os.environ, VERIF_REPO=d), capture_output=True, text=True)
+            q = subprocess.run([os.path.join(ROOT, "check"), p], env=dict(os.environ, VERIF_REPO=d), capture_output=True, text=True)
             lines = [l for l in (q.stdout + q.stderr).split("\n") if "VIOLATION" in l or "holds" in l or "VIOLATED" in l]
             out[p] = "quiet" if q.returncode == 0 else " | ".join(l[:120] for l in lines[:2])
         print(json.dumps({"ref": ref, "files": files, "result": out}))
